@@ -94,7 +94,7 @@ def search_case(case, seed, open_ids):
     if js.get('found'):
         return dict(reproduced=True, case=case, input=js['input'], observed=js['observed'], expected=js['expected'],
                     tried=js['tried'], replay_cmd=f"{BIN} run {case} '{json.dumps(js['input'])}'")
-    return dict(reproduced=False, case=case, tried=js.get('tried'))
+    return dict(reproduced=False, case=case, tried=js.get('tried'), samples=js.get('samples', []))
 
 
 def replay_kani_counterexample(h, seed):
